@@ -315,6 +315,9 @@ def instruction_lemma(ctx, eng, ce, b, op, cb=None, haltbug=False):
                         memv.append(e[2] != wv[3])
                     if wv[0] is not None:
                         accv.append(z3.BoolVal(e[3] != wv[0]))
+                        # "the documented access": in that cycle the bus sees the documented address (C03 is about the
+                        # machine cycle in which a location is touched, so a right cycle with a wrong address is no access)
+                        accv.append(e[1] != wv[2])
                 out["mem"].append((z3.And(guard, z3.Or(*memv)) if memv else z3.BoolVal(False), s))
                 out["accesses"].append((z3.And(guard, z3.Or(*accv)) if accv else z3.BoolVal(False), s))
             # frame: interrupt state, run state
@@ -322,17 +325,18 @@ def instruction_lemma(ctx, eng, ce, b, op, cb=None, haltbug=False):
             for nm in ("vblankEnabled", "statEnabled", "timerEnabled", "serialEnabled", "joypadEnabled", "ieHighBits",
                        "vblankRequested", "statRequested", "timerRequested", "serialRequested", "joypadRequested"):
                 fr.append(ifld(eng, s, b, nm) != ifld(eng, pre_state, b, nm))
+            # master enable in force while this instruction runs: IME, or an EI whose one-instruction delay ends with this fetch
+            ime_eff = z3.Or(pre["ime"], armed(eng, pre_state, b))
             if sp.ime is None:
-                fr.append(ifld(eng, s, b, "ime") != pre["ime"])
+                fr.append(ifld(eng, s, b, "ime") != ime_eff)
             elif sp.ime is True or sp.ime is False:
                 fr.append(ifld(eng, s, b, "ime") != z3.BoolVal(sp.ime))
-            for nm in ("eiPending", "eiDelay", "imeScheduled", "enableInterrupts"):
-                if has_field(eng, b, nm):
-                    armed = fld(eng, s, b, nm)
-                    if sp.ime == "ei":
-                        fr.append(z3.Not(z3.Or(armed, ifld(eng, s, b, "ime"))))
-                    else:
-                        fr.append(armed)
+            if sp.ime == "ei":
+                # EI: nothing changes yet (IME keeps the value in force), the enable is armed or already in force
+                fr.append(ifld(eng, s, b, "ime") != ime_eff)
+                fr.append(z3.Not(z3.Or(armed(eng, s, b), ifld(eng, s, b, "ime"))))
+            else:
+                fr.append(armed(eng, s, b))
             if sp.special is None:
                 fr.append(fld(eng, s, b, "halted"))
                 fr.append(fld(eng, s, b, "stopped"))
@@ -347,12 +351,35 @@ def instruction_lemma(ctx, eng, ce, b, op, cb=None, haltbug=False):
 
 ASPECTS = {"C11": ["flow", "nopanic"], "C04": ["frame", "flow", "boundary"], "C05": ["regs", "flags", "mem", "frame", "cycles", "flow"],
            "C01": ["regs", "flags", "mem", "frame", "flow", "nopanic", "boundary"], "C02": ["cycles", "flow", "boundary"],
-           "C03": ["accesses", "flow", "boundary"]}
+           "C03": ["accesses", "flow", "boundary"], "C23": ["mem", "flow"]}
 
 
 def opcode_chunks(nchunks=32):
     ops = [(o, None) for o in range(256) if o != 0xCB] + [(0xCB, c) for c in range(256)]
     return [ops[i::nchunks] for i in range(nchunks)]
+
+
+def store_opcodes():
+    """opcodes whose documented effect includes a bus write (per spec/sm83.py), as (op, cb) pairs"""
+    out = []
+    names = ["a", "b", "c", "d", "e", "h", "l", "f"]
+    pre = {r: z3.BitVec("s_" + r, 8) for r in names}
+    pre.update({"sp": z3.BitVec("s_sp", 16), "pc": z3.BitVec("s_pc", 16), "ime": z3.Bool("s_ime")})
+    for (op, cb) in [(o, None) for o in range(256) if o != 0xCB] + [(0xCB, c) for c in range(256)]:
+        if cb is None and op in sm83.UNDEFINED:
+            continue
+        k = [0]
+
+        def rd():
+            k[0] += 1
+            return z3.BitVec("s_rd%d" % k[0], 8)
+        try:
+            sp = sm83.spec(op, cb, pre, rd, True)
+        except Exception:
+            continue
+        if any(e[1] == "W" for e in (sp.events or [])):
+            out.append((op, cb))
+    return out
 
 
 def opcode_task(prop, chunk, idx):
@@ -397,7 +424,23 @@ def has_field(eng, b, name):
     return eng.p.field_index(b.tid, name) is not None
 
 
+def armed(eng, st, b):
+    """a delayed enable (EI executed, IME not yet set) is pending in state st - if the implementation keeps such a flag"""
+    t = z3.BoolVal(False)
+    for nm in ("eiPending", "eiDelay", "imeScheduled", "enableInterrupts"):
+        if has_field(eng, b, nm):
+            v = fld(eng, st, b, nm)
+            t = z3.Or(t, v if z3.is_bool(v) else v != 0)
+    return t
+
+
 def boundary_hyps(eng, st, b):
+    """hypotheses on an arbitrary instruction boundary: none - in particular a delayed enable may be pending (the previous
+    instruction was EI), whatever the master enable is"""
+    return []
+
+
+def no_pending_enable(eng, st, b):
     """instruction boundary with no delayed-EI pending (if the implementation keeps such a flag)"""
     hy = []
     for nm in ("eiPending", "eiDelay", "imeScheduled", "enableInterrupts"):
@@ -427,7 +470,7 @@ def dispatch_check(eng, b, pre_state, s, n, want_cycles, guard, allow_reads=Fals
     v["cycles"] = z3.BoolVal(n != want_cycles)
     v["vector"] = fld(eng, s, b, "pc") != z3.BitVecVal(0x40, 16) + idx * 8
     v["sp"] = fld(eng, s, b, "sp") != sp0 - 2
-    v["ime"] = ifld(eng, s, b, "ime")
+    v["ime"] = z3.Or(ifld(eng, s, b, "ime"), armed(eng, s, b))   # cleared, and no delayed enable survives the dispatch
     ifv = []
     for i, e in enumerate(IBITS):
         ifv.append(ifld(eng, s, b, e + "Requested") != z3.And(ifld(eng, pre_state, b, e + "Requested"), idx != i))
@@ -499,7 +542,7 @@ def interrupt_lemmas(ctx, eng, ce):
         st = b.st.fork()
         pre = pre_regs(eng, st, b)
         hyp = [z3.Not(pre["ime"]), pending_term(eng, st, b), z3.Not(fld(eng, st, b, "halted")), z3.Not(fld(eng, st, b, "stopped")),
-               z3.Not(fld(eng, st, b, "haltbug")), (pre["f"] & 0x0f) == 0] + boundary_hyps(eng, st, b)
+               z3.Not(fld(eng, st, b, "haltbug")), (pre["f"] & 0x0f) == 0] + no_pending_enable(eng, st, b)
         for h in hyp:
             st.pc.append(h)
         pre_state = st.fork()
@@ -535,7 +578,7 @@ def interrupt_lemmas(ctx, eng, ce):
     st = b.st.fork()
     pre = pre_regs(eng, st, b)
     hyp = [z3.Not(pre["ime"]), pending_term(eng, st, b), z3.Not(fld(eng, st, b, "halted")), z3.Not(fld(eng, st, b, "stopped")),
-           z3.Not(fld(eng, st, b, "haltbug")), (pre["f"] & 0x0f) == 0] + boundary_hyps(eng, st, b)
+           z3.Not(fld(eng, st, b, "haltbug")), (pre["f"] & 0x0f) == 0] + no_pending_enable(eng, st, b)
     for h in hyp:
         st.pc.append(h)
     pre_state = st.fork()
@@ -594,7 +637,8 @@ def halt_lemmas(ctx, eng, ce):
     def start(hyps):
         st = b.st.fork()
         pre = pre_regs(eng, st, b)
-        for h in hyps(st, pre) + [(pre["f"] & 0x0f) == 0] + boundary_hyps(eng, st, b):
+        # a halted CPU has no delayed enable pending: lemma halt-executed:ime proves HALT leaves none
+        for h in hyps(st, pre) + [(pre["f"] & 0x0f) == 0] + no_pending_enable(eng, st, b):
             st.pc.append(h)
         return st, pre, st.fork()
 
